@@ -682,8 +682,16 @@ func Run(t *testing.T, cfg harness.Config, idx int, tp *tape.Tape) (res harness.
 						}
 						return
 					case 'g':
-						pv, ok := spawners.Load(runtime.VerifParentGID())
 						gid := runtime.VerifGID()
+						if t := cur.Load(); t != nil && t.gid == gid {
+							// not a new goroutine: the announced literal runs on the
+							// announcer's own goroutine
+							if _, ok := spawners.Load(gid); ok {
+								announced.Add(-1)
+							}
+							return
+						}
+						pv, ok := spawners.Load(runtime.VerifParentGID())
 						if !ok || gid == 0 {
 							return // started by a goroutine the scheduler does not run: free
 						}
